@@ -159,6 +159,33 @@ void mixed_size(Shared& s) {
   s.r[2] = (int)s.word.load(memory_order_relaxed);
 }
 
+// The piggy-back shape of the queue's futex word: one thread sets the waiter flag (32-bit CAS), a second one sees
+// the flag already set and goes to sleep without a write of its own, the waker publishes with a 16-bit store,
+// a seq_cst fence and a 32-bit re-load. On every multi-copy-atomic machine the outcome "the sleeper saw the flag
+// but not the version, and the waker missed the flag" is impossible; the model must not produce it either.
+void mixed_size_piggyback(Shared& s) {
+  auto* half = reinterpret_cast<std::atomic<uint16_t>*>(&s.word);
+  std::thread flagger([&] { uint32_t e = 0; s.word.compare_exchange_strong(e, 0x10000u, memory_order_acquire); });
+  std::thread sleeper([&] { std::atomic_thread_fence(memory_order_seq_cst); s.r[0] = (int)s.word.load(memory_order_relaxed); });
+  std::thread waker([&] {
+    half->store(1, memory_order_release);
+    std::atomic_thread_fence(memory_order_seq_cst);
+    s.r[1] = (int)s.word.load(memory_order_relaxed);
+  });
+  flagger.join(); sleeper.join(); waker.join();
+}
+// the same without the waker's fence: the lanes its own store does not cover may still be stale
+void mixed_size_piggyback_unfenced(Shared& s) {
+  auto* half = reinterpret_cast<std::atomic<uint16_t>*>(&s.word);
+  std::thread flagger([&] { uint32_t e = 0; s.word.compare_exchange_strong(e, 0x10000u, memory_order_acquire); });
+  std::thread sleeper([&] { std::atomic_thread_fence(memory_order_seq_cst); s.r[0] = (int)s.word.load(memory_order_relaxed); });
+  std::thread waker([&] {
+    half->store(1, memory_order_release);
+    s.r[1] = (int)s.word.load(memory_order_relaxed);
+  });
+  flagger.join(); sleeper.join(); waker.join();
+}
+
 long futex_wait(std::atomic<uint32_t>* a, uint32_t v) { return syscall(SYS_futex, a, FUTEX_WAIT | FUTEX_PRIVATE_FLAG, v, nullptr); }
 long futex_wake(std::atomic<uint32_t>* a) { return syscall(SYS_futex, a, FUTEX_WAKE | FUTEX_PRIVATE_FLAG, INT32_MAX); }
 
@@ -241,6 +268,8 @@ const Test tests[] = {
     {"RMW atomicity", rmw_atomic, "0,0,0,0,2;1,1,0,0,2;0,1,1,1,2;1,0,1,1,2;0,1,0,0,2;1,0,0,0,2;0,0,1,0,2;0,0,0,1,2;1,1,1,0,2;1,1,0,1,2", "0,1,1,0,2;1,0,0,1,2", 500},
     {"release sequence through relaxed RMW", release_sequence, "", "7;-1", 500},
     {"fence-fence synchronisation (payload)", fence_fence_payload, "", "9;-1", 500},
+    {"mixed-size piggy-back waiter, fenced waker (multi-copy atomic)", mixed_size_piggyback, "65536,1", "65536,65537;0,1;0,65537", 500},
+    {"mixed-size piggy-back waiter, unfenced waker", mixed_size_piggyback_unfenced, "", "65536,1;65536,65537", 500},
     {"mixed-size 16/32", mixed_size, "0,1,65536;0,1,1;65537,0,1;1,1,1;1,0,65537", "65537,1,65537;1,1,65537;1,0,1", 500},
 };
 
